@@ -43,7 +43,29 @@ def keyword_table(F):
                     for l in lits:
                         tab[l] = body["v"]
             return tab, Hh.sp(x)
+    # the table as data: a constant array of (keyword, replacement) pairs that the function searches
+    for y in Hh.exprs(nb["value"]):
+        if y.get("k") == "Path" and y.get("res") == "def" and str(y.get("dk", "")).startswith(("Const", "Static")):
+            cb = F.lib.body(y.get("path") or "")
+            if cb is None or cb.get("hir") is None:
+                continue
+            rows = []
+            for z in Hh.exprs(Hh.norm_body(cb)["value"]):
+                if z.get("k") == "Array":
+                    for el in z["es"]:
+                        el = Hh.strip(el)
+                        if el.get("k") == "Tup" and len(el["es"]) == 2:
+                            a, b_ = Hh.strip(el["es"][0]), Hh.strip(el["es"][1])
+                            if a.get("k") == "Lit" and a.get("lit") == "str" and b_.get("k") == "Lit" and b_.get("lit") == "str":
+                                rows.append((a["v"], b_["v"]))
+            if len(rows) > 5:
+                TABLE_ORDER["rows"] = [k for k, _ in rows]
+                TABLE_ORDER["binary"] = any(m.get("k") == "MethodCall" and str(m.get("name", "")).startswith("binary_search") for m in Hh.exprs(nb["value"]))
+                return dict(rows), cb.get("span", "-")
     return None, None
+
+
+TABLE_ORDER = {}
 
 
 def is_literal_only(nf):
@@ -320,6 +342,14 @@ def run(ck, F):
         ck.undecided("R2", "table", "-", "keyword table (match on literals in rename_keywords) not found")
     else:
         ck.count("R2:table rows", len(tab))
+        if TABLE_ORDER.get("binary"):
+            keys = TABLE_ORDER["rows"]
+            if keys == sorted(keys) and len(set(keys)) == len(keys):
+                ck.ok("R2", "table-sorted", site, "the keyword table is searched by bisection and its rows are in ascending order of the keyword")
+            else:
+                bad = next((b_ for a_, b_ in zip(keys, keys[1:]) if not a_ < b_), "?")
+                ck.violation("R2", "table-sorted", site, f"the keyword table is searched by bisection but is not sorted (at `{bad}`): rows behind the "
+                             f"misplaced one are not found and those keywords are written as they are")
         missing = []
         illegal = []
         for kw in STRICT + RESERVED:
@@ -358,6 +388,7 @@ def run(ck, F):
     abbr_ok = _abbreviation_alphabet_ok(F)
     from rules import anchors as A_
     abbr_fns = [m_.rsplit("::", 1)[-1] for m_ in A_.abbreviation_makers(F)]
+    CE.keep |= set(A_.abbreviation_makers(F))      # the allocator stays a call in the chains: it is judged as a whole (alphabet rule)
     stream = [(e, {"self": "model::doc::RustDocument"}) for e in T.inline(X, T.ROOT) if e.kind == "emit"]
     stream += [(T.IEmit(ev, ev.parts, ev.ctx, ()), {"self": "model::field::RustFieldType"}) for ev in X.events.get(DISPLAY, []) if ev.kind == "emit"]
     n_holes = 0
@@ -640,7 +671,7 @@ def _guard_bodies(ck, F, used):
         if b is None or b.get("hir") is None:
             return None
         if path not in cache:
-            cache[path] = Hh.norm_body(b)
+            cache[path] = og.with_literal_consts(F, Hh.norm_body(b))
         return cache[path]
 
     n = 0
